@@ -42,6 +42,37 @@ def mk_result(ob_list, name, words, pc, ax, claim):
     return ob
 
 
+def histories_for(bad):
+    """key / frame histories for the real App; those passing through the (prev, key) pre-states named by failing obligations first"""
+    pri = []
+    for ob in bad:
+        mm = re.search(r'key=(\w+),prev=([\w-]+)', ob.name)
+        if mm and (mm.group(2), mm.group(1)) not in pri: pri.append((mm.group(2), mm.group(1)))
+    out = []; seen = set()
+    tail = 'step:0.1,step:0.25,step:0.5,step:0.5,step:0.1,step:0.1,step:0.1,step:0.3,step:0.3,step:0.1,step:0.1'
+    def add(prev, cur, nxt, chain):
+        ops = []
+        if prev not in ('-', None): ops += [f'key:{prev}', 'step:0.1', 'step:0.25']
+        if chain:
+            # with a chain the user assigns keys only at the beginning (a user assignment racing a chain move is not specified)
+            ops += [f'key:{cur}', tail, tail]
+        else:
+            ops += [f'key:{cur}', 'step:0.1', 'step:0.25', f'key:{nxt}', tail, f'key:{nxt}', 'step:0.1', f'key:{cur}', tail]
+        k = (','.join(ops), chain)
+        if k not in seen:
+            seen.add(k); out.append({'kind': 'bevy_history', 'ops': k[0], 'chain': chain})
+    chains = ['', 'Go>Back', 'Go>Back;Back>Go', 'Back>Idle', 'Go>NoTl']
+    for prev, cur in pri:
+        for nxt in KEYS:
+            for ch in chains[:2]: add(prev, cur, nxt, ch)
+    for prev in ['-'] + KEYS:
+        for cur in KEYS:
+            if cur == prev: continue
+            for nxt in KEYS:
+                for ch in chains: add(prev, cur, nxt, ch)
+    return out
+
+
 def main(tier):
     check = Check('C19', tier, 'model_checking')
     prog, enums, keys_ = c18.load()
@@ -230,14 +261,37 @@ def main(tier):
     for ob in check.obligations:
         if ob.result.status == 'sat' and not ob.finding_key:
             check.inconclusive.append(f'{ob.name}: solver counterexample on the ECS model (no automatic App replay for this clause)')
-    # counterexamples of the modelled clauses (other than the recorded finding) are replayed on the real App scenario runner
+    # counterexamples of the modelled clauses (other than the recorded finding) are replayed on the real App: key / frame histories
+    # that pass through the pre-state of the failing step (previous key, then current key) and continue with every possible next
+    # key, judged by the reference of replay_bevy::run_history; plus the fixed selector scenario
     bad = [ob for ob in check.obligations if ob.result.status == 'sat' and not ob.finding_key]
     if bad:
         try:
-            nat = run_replay([{'kind': 'bevy_selector'}], 'dev', 'replay_bevy', timeout=600)[0]
-            if nat.get('violated'):
+            hist = histories_for(bad)
+            nats = run_replay(hist + [{'kind': 'bevy_selector'}], 'dev', 'replay_bevy', timeout=900)
+            check.traces_validated += len(nats)
+            hits = [(c, n) for c, n in zip(hist + [{'kind': 'bevy_selector'}], nats) if n.get('violated')]
+            if hits:
                 check.inconclusive = [x for x in check.inconclusive if 'no automatic App replay' not in x]
-                check.report_violation(bad[0].name, None, f'{bad[0].words} FAILS; on the real App: {nat.get("detail")}', {'kind': 'bevy_selector'})
+                seen = set()
+                for case, nat in hits:
+                    d = nat.get('detail', '')
+                    sig = re.sub(r'[-\d.]+', '#', d)[:80]
+                    if sig in seen or len(seen) >= 3: continue
+                    seen.add(sig)
+                    check.report_violation(bad[0].name + f'.{len(seen)}', None, f'{bad[0].words} FAILS ({len(bad)} failing obligations on the model); on the real App, history {case.get("ops", case["kind"])} chain {case.get("chain", "-")!r}: {d}', case)
+        except Exception as e:
+            check.inconclusive.append(f'bevy replay unavailable ({e})')
+    else:
+        # model validation on the unchanged tree: a sample of histories must satisfy the reference on the real App
+        try:
+            hist = histories_for([])[:: 7]
+            nats = run_replay(hist, 'dev', 'replay_bevy', timeout=900)
+            check.traces_validated += len(nats)
+            for case, nat in zip(hist, nats):
+                if nat.get('violated'):
+                    check.report_violation('C19.history', None, f'history {case["ops"]} chain {case["chain"]!r} on the real App: {nat.get("detail")}', case)
+                    break
         except Exception as e:
             check.inconclusive.append(f'bevy replay unavailable ({e})')
     check.assumptions += ['ECS contract modelled at call level (bevy_model.py), incl. the Changed<AnimationSelector> filter and EventReader (each event read once); chain and select are explored in both relative orders',
